@@ -372,11 +372,19 @@ func (ff *faultFixture) slices(s env.State) (own map[string]map[string][]byte, g
 			global[string(kv.K)] = kv.V
 			continue
 		}
+		// an entry of a time queue (spawn / removal / infraction-update schedule) lists every consumer due at
+		// that time: for each of them only its own membership counts, not who else shares the entry
+		pfx := kv.K[0]
+		shared := pfx == providertypes.SpawnTimeToConsumerIdsKeyPrefix() || pfx == providertypes.RemovalTimeToConsumerIdsKeyPrefix() || pfx == providertypes.InfractionScheduledTimeToConsumerIdsKeyPrefix()
 		for id := range os {
 			if own[id] == nil {
 				own[id] = map[string][]byte{}
 			}
-			own[id][string(kv.K)] = kv.V
+			if shared {
+				own[id][string(kv.K)] = []byte("<listed>")
+			} else {
+				own[id][string(kv.K)] = kv.V
+			}
 		}
 	}
 	return own, global
